@@ -247,6 +247,17 @@ where
     {
         let contexts = self.contexts.read().await;
 
+        // Round-robin rotates over positions in the full list, so that resources entering or
+        // leaving the eligible set do not renumber (and thereby starve) the others
+        if matches!(
+            self.config.selection_strategy,
+            crate::SelectionStrategy::RoundRobin
+        ) {
+            let eligible: Vec<bool> = contexts.iter().map(|ctx| filter(ctx.status())).collect();
+            let idx = crate::selector::round_robin_next(&eligible, round_robin_counter)?;
+            return contexts.get(idx).map(|ctx| ctx.context.clone());
+        }
+
         // Filter to contexts matching the filter
         let available: Vec<_> = contexts
             .iter()
